@@ -73,11 +73,13 @@ func vsymC40Fingerprint(s *metadata.InMemoryStore) int64 {
 			fp = fp*31 + cfg.RetentionMs
 		}
 	}
+	// (groups come out of a map: the contribution of each must not depend on the order)
 	gs, _ := s.ListConsumerGroups(ctx)
+	var gsum int64
 	for _, g := range gs {
-		fp = fp*31 + int64(g.GenerationId) + int64(len(g.Members))
+		gsum += int64(g.GenerationId)*131 + int64(len(g.Members))*7 + int64(len(g.GroupId)) + int64(len(g.State))*1009
 	}
-	return fp
+	return fp*31 + gsum
 }
 
 var vsymC40Names = []string{"", "t", "u", "ghost"}
